@@ -356,3 +356,47 @@ class GenerateCode:
 
     def ensures_exc(self, structure, class_generator, class_generator_kwargs, objects_delimiter, preamble):
         return {"context_restored_on_failure@C14,C15": tl_get(AbsoluteModelRef.Context.data, "context") is old(tl_get(AbsoluteModelRef.Context.data, "context"))}
+
+
+# --------------------------------------------------------------------------------------------- string converters (C18)
+SC = "json_to_models/models/string_converters.py"
+
+
+@specrec
+def conv_ok(path, value, t):
+    """value is a legal input for the converter path: strings that the leaf pseudo-type accepts, under Optional / List / Dict"""
+    return seq_len(path) >= 1 and (
+        (sval(at(path, 0)) == "S" and ty_is(value, str) and accepts(t, sval(value)))
+        or (sval(at(path, 0)) == "O" and ty_is(type_args(t), tuple) and seq_len(type_args(t)) >= 1 and (is_none(value) or conv_ok(tail(path), value, type_arg(t, 0))))
+        or (sval(at(path, 0)) == "L" and ty_is(type_args(t), tuple) and seq_len(type_args(t)) >= 1 and ty_is(value, list)
+            and forall(as_list(value), lambda x: conv_ok(tail(path), x, type_arg(t, 0))))
+        or (sval(at(path, 0)) == "D" and ty_is(type_args(t), tuple) and seq_len(type_args(t)) >= 2 and ty_is(value, dict)
+            and forall(as_dict(value), lambda k: conv_ok(tail(path), as_dict(value)[k], type_arg(t, 1)))))
+
+
+@specrec
+def conv_rel(path, value, t, result):
+    """result is value with every leaf string replaced by its parsed pseudo-type value; None kept; containers keep their shape"""
+    return seq_len(path) >= 1 and (
+        (sval(at(path, 0)) == "S" and result is ext("clsmethod:to_internal_value", t, sval(value)))
+        or (sval(at(path, 0)) == "O" and ((is_none(value) and is_none(result)) or (not is_none(value) and conv_rel(tail(path), value, type_arg(t, 0), result))))
+        or (sval(at(path, 0)) == "L" and ty_is(result, list) and seq_len(result) == seq_len(value)
+            and forall(range(seq_len(value)), lambda i: conv_rel(tail(path), at(value, i), type_arg(t, 0), at(result, i))))
+        or (sval(at(path, 0)) == "D" and ty_is(result, dict) and forall(as_dict(value), lambda k: k in as_dict(result) and conv_rel(tail(path), as_dict(value)[k], type_arg(t, 1), as_dict(result)[k]))
+            and forall(as_dict(result), lambda k: k in as_dict(value))))
+
+
+@contract(SC + "::_process_string_field_value", props=["C18"])
+class ProcessStringFieldValue:
+    """C18: on a value that inhabits the field's type, path interpretation never raises, parses exactly the leaf strings, keeps None
+    where the sample had null and keeps the shape of every container."""
+    sorts = {"path": "list", "path[]": "str", "current_type": "class", "optional": "bool", "token": "str", "result": "any"}
+
+    def requires(self, path, value, current_type, optional):
+        return {"legal_input": conv_ok(path, value, current_type)}
+
+    def raises(self, path, value, current_type, optional):
+        return {"ValueError": False, "TypeError": False}
+
+    def ensures(self, path, value, current_type, optional, result):
+        return {"converted": conv_rel(path, value, current_type, result)}
